@@ -5,7 +5,7 @@ PROP = "C17"
 PREFIXES = ['C17.']
 ASSUME = ['the simulation layer (src/verif.rs) behaves like a kernel for what the properties observe (injected ingress with PKTINFO, captured egress, virtual clock)', "policy D: besides the daemon's own wake-ups the harness steps it at every instant where a delivered record reaches 80/85/90/95/100 % of its TTL and one second after every delivery; deadlines are judged in the first iteration at or after the due time (whether the daemon wakes by itself is C12)", "ground truth = spec/Heard.tla over the delivered packets (parsed by the harness's independent reader); names are compared by their lower-cased unescaped spelling unless a clause is about labels", 'weak readings chosen where the statement is silent: one-second grace around expiry (records in their last second count as gone), verify may or may not shorten address lifetimes, obligations only for records received in packets that were for this daemon']
 RULE = "driver family 'resolve': 1-2 hostname resolvers (all letter-case variants on caller and responder side, timeouts 1 ms .. 30 s or none, stop and resolve-again), responders announcing changing address sets with TTL 1-120 s, goodbyes, cache-flush address changes, loss."
-FAMILIES = [('resolve', [])]
+FAMILIES = [('resolve', []), ('resolvew', [], 'TraceBrowse', 'TraceBrowse.cfg', 100, 1500)]
 MCS = [('MCHeard', 'MCHeard{T}.cfg')]
 
 
